@@ -132,13 +132,34 @@ ItemBytes(kind, v) ==
 (* st: cur (next item), items written (seq of byte seqs), cur item under construction (streamed block),*)
 (*     errs, params (log of reader calls), failed                                                     *)
 St0 == [cur |-> 1, items |-> <<>>, open |-> FALSE, obytes |-> <<>>, arb |-> 0, errs |-> <<>>, params |-> <<>>, failed |-> FALSE, stop |-> FALSE, alt |-> FALSE, wild |-> FALSE]
+(* SCPI_ParamArray<kind>(up to n elements, mandatory): element reads of that kind, the first as mandatory as the    *)
+(* call, the others optional; it ends at the first element that is not delivered and fails only when not even    *)
+(* a mandatory first element was delivered.  The log gets one entry per delivered element and a closing entry     *)
+(* "pa" with the result and the count.                                                                            *)
+RECURSIVE ArrayRead(_, _, _, _, _, _, _, _, _)
+ArrayRead(kind, n, mand, stopOnFail, msg, toks, choices, st, cnt) ==
+  LET Fin(s, ok) == [s EXCEPT !.params = Append(@, [kind |-> "pa", ok |-> ok, val |-> DecP(cnt)]),
+                              !.failed = @ \/ ~ok, !.stop = @ \/ (~ok /\ stopOnFail)] IN
+  IF cnt >= n THEN Fin(st, ~(mand /\ cnt = 0))
+  ELSE IF st.cur > Len(toks) THEN
+       (IF mand /\ cnt = 0 THEN Fin([st EXCEPT !.errs = Append(@, 0 - 109)], FALSE) ELSE Fin(st, TRUE))
+  ELSE LET tk == toks[st.cur]
+           text == Slice(msg, tk.start, tk.len)
+           oc == ReaderOutcome(kind, tk, text, choices) IN
+       IF oc = 0
+       THEN ArrayRead(kind, n, mand, stopOnFail, msg, toks, choices,
+                      [st EXCEPT !.cur = @ + 1, !.params = Append(@, [kind |-> kind, ok |-> TRUE, val |-> Delivered(kind, tk, text, choices)])], cnt + 1)
+       ELSE Fin([st EXCEPT !.cur = @ + 1, !.errs = Append(@, oc), !.alt = @ \/ OutcomeAlternatives(kind, tk) # {}], ~(mand /\ cnt = 0))
+
 RECURSIVE RunOps(_, _, _, _, _, _)
 RunOps(ops, stopOnFail, msg, toks, choices, st) ==
   IF ops = <<>> \/ st.stop THEN st ELSE
   LET o == Head(ops) rest == Tail(ops) IN
   IF o[1] = "r" /\ Len(o) = 5 THEN RunOps(rest, stopOnFail, msg, toks, choices, [st EXCEPT !.items = @ \o ArrayItems(o[2], o[3], o[5])])
   ELSE IF o[1] = "r" THEN RunOps(rest, stopOnFail, msg, toks, choices, [st EXCEPT !.items = Append(@, ItemBytes(o[2], o[3]))])
-  ELSE IF o[1] = "bh" THEN RunOps(rest, stopOnFail, msg, toks, choices, [st EXCEPT !.open = TRUE, !.obytes = BlockHeader(o[2]), !.arb = o[2]])
+  ELSE IF o[1] = "bh" THEN      \* an empty block is complete with its header
+       (IF o[2] = 0 THEN RunOps(rest, stopOnFail, msg, toks, choices, [st EXCEPT !.items = Append(@, BlockHeader(0)), !.open = FALSE, !.obytes = <<>>, !.arb = 0])
+        ELSE RunOps(rest, stopOnFail, msg, toks, choices, [st EXCEPT !.open = TRUE, !.obytes = BlockHeader(o[2]), !.arb = o[2]]))
   ELSE IF o[1] = "bd" THEN
        (IF Len(o[2]) > st.arb
         THEN RunOps(rest, stopOnFail, msg, toks, choices, [st EXCEPT !.errs = Append(@, AnyErr)])       \* refused with an error, nothing emitted
@@ -148,6 +169,7 @@ RunOps(ops, stopOnFail, msg, toks, choices, st) ==
              ELSE RunOps(rest, stopOnFail, msg, toks, choices, [st EXCEPT !.obytes = nb, !.arb = left]))
   ELSE IF o[1] = "e" THEN RunOps(rest, stopOnFail, msg, toks, choices, [st EXCEPT !.errs = Append(@, o[2])])
   ELSE IF o[1] = "q" THEN RunOps(rest, stopOnFail, msg, toks, choices, st)     \* the handler pops one error: no effect on this unit
+  ELSE IF o[1] = "pa" THEN RunOps(rest, stopOnFail, msg, toks, choices, ArrayRead(o[2], o[3], o[4], stopOnFail, msg, toks, choices, st, 0))
   ELSE IF o[1] = "x" THEN     \* "apply every API": takes the next item if there is one; what it emits / reports is not specified
        RunOps(rest, stopOnFail, msg, toks, choices,
               [st EXCEPT !.cur = IF st.cur > Len(toks) THEN @ ELSE @ + 1, !.wild = @ \/ st.cur <= Len(toks),
